@@ -272,6 +272,9 @@ class ParallelogramBoundary(BoundaryDomain):
         self._add_local_normal_vector(
             normals, bary_x, bary_y, normal_dir_1, normal_dir_2, 1.0
         )
+        # if the corners are ordered clockwise, the above normals point inwards
+        orientation = dir_1[:, :1] * dir_2[:, 1:] - dir_1[:, 1:] * dir_2[:, :1]
+        normals = normals * torch.sign(orientation)
         # scale normal vectors if there where in a corner:
         return torch.divide(normals, torch.linalg.norm(normals, dim=1).reshape(-1, 1))
 
